@@ -21,6 +21,25 @@
 //!   additions to c09's value / atom syntax, handled here (c09.rs is unchanged): val `z` = Value::Null (init facts, S, X, query
 //!   literal `F<i>.<op>.z` = `<field> <op> null`, rule condition literal and Set literal); rule condition atom `F<i>.ex.t` = the
 //!   test `exists(<field>)`
+//!   KNOWLEDGE-BASE EDITS on the live engine (U09; through `engine.knowledge_base()`, as in c09.rs's histories) and `rebuild_index`:
+//!     `+<i>=<j>` add_rule(a copy of the j-th rule of the rules token, ENABLED, under the name `R<i>`; an existing name is rejected)
+//!     | `-<i>` remove_rule("R<i>") | `e<i>` / `d<i>` set_rule_enabled("R<i>", true / false) | `z` clear() | `x` engine.rebuild_index()
+//!     a rule of the rules token may carry c09's `*` marker (added DISABLED: a reserve for `e<i>` / `+<i>=<j>`).
+//!     The engine of the fresh comparison is built on the rule list as it was when the index was last built (construction or
+//!     the last `x`) and then given the same edits since, WITHOUT a rebuild: "a fresh engine on the rule set as it is at that step,
+//!     with the index as fresh as the last rebuild_index made it". The obs key carries the number of effective edits (`v<n>`,
+//!     counted by the harness, not read from the code) once there was one; queries after an `x` are of kind `k` (cache emptied).
+//!   MUTATOR SUFFIX (U09): every `S` / `D` / `X` op may end in `@<m>`: WHICH public mutator of `Facts` makes the change — the
+//!   contents afterwards are the same for every choice (the models read contents only: Driver/C11.lean drops the suffix), what
+//!   differs is the route, i.e. whatever bookkeeping the code keeps beside the contents (undo log, type table, stamps, …):
+//!     put (S, X): none/`s` Facts::set | `n` set_nested (names without a dot; dotted names go through set) | `a` add_value
+//!                 | `j` add::<T> (serde: bool / i64 / f64 / String / () — arrays and objects go through add_value)
+//!                 | `m` merge(&other) from another Facts holding just this entry | `t` restore(snapshot with the entry changed)
+//!                 | `c` clear() + every entry added again (add_value) | `w` a NEW Facts object = from_context(changed contents)
+//!                 | `y` a NEW Facts object = Facts::new() + add_value of every entry
+//!     del (D):    none/`s` Facts::remove | `t` restore(snapshot without the entry) | `c` clear() + the others added again
+//!                 | `w` / `y` a NEW Facts object without the entry
+//!   op `W` / `Wy`: the caller hands the NEXT query a NEW Facts object with EQUAL contents (from_context / new + add_value)
 //! obs  := one item per Q/N/A/E op, `;`-separated:  `<kind q|a|k>/<key>/<answer>/<fresh>/<hit>/<flags>/<after>`
 //!   after = the caller's facts after the call on the long-lived engine (c09's rendering; `?` when a fact outside c09's universe
 //!           is present; a present Null is rendered `z`) — with answer and hit what the engine model of Driver/C11.lean predicts for every call
@@ -37,7 +56,9 @@
 //!   fresh engine; `e` a query asked after an aggregate call failed on this engine; `w` an earlier call's engine key text differs
 //!   from this one's ONLY in whitespace (blanks inside a string literal of the query / inside a string value of the facts);
 //!   `z` the same query was asked earlier on facts that differ from the present ones ONLY in entries holding Null (absent vs Null);
-//!   `R` a RETE engine is attached to the call; `T` facts were retracted in the attached engine earlier in the history
+//!   `R` a RETE engine is attached to the call; `T` facts were retracted in the attached engine earlier in the history;
+//!   `V` the knowledge base of the live engine was edited earlier in the history; `s` … and not every edit was followed by a
+//!   rebuild_index yet (the conclusion index is stale)
 #[allow(dead_code)]
 #[path = "c09.rs"]
 mod c09;
@@ -309,6 +330,195 @@ fn is_permutation(a: &[(String, String)], b: &[(String, String)]) -> bool {
     va == vb
 }
 
+/// an edit of the knowledge base of a live engine
+#[derive(Clone)]
+enum Edit {
+    Add(Rule),
+    Remove(String),
+    Enable(String, bool),
+    Clear,
+}
+
+/// what `KnowledgeBase` does with an edit, on a plain list (all saliences equal: `get_rules()` = insertion order); true = the
+/// edit counts (the version moves)
+fn shadow_edit(live: &mut Vec<Rule>, e: &Edit) -> bool {
+    match e {
+        Edit::Add(r) => {
+            if live.iter().any(|x| x.name == r.name) {
+                return false;
+            }
+            live.push(r.clone());
+            true
+        }
+        Edit::Remove(n) => {
+            let had = live.iter().any(|x| &x.name == n);
+            live.retain(|x| &x.name != n);
+            had
+        }
+        Edit::Enable(n, b) => {
+            let mut had = false;
+            for x in live.iter_mut() {
+                if &x.name == n {
+                    x.enabled = *b;
+                    had = true;
+                }
+            }
+            had
+        }
+        Edit::Clear => {
+            live.clear();
+            true
+        }
+    }
+}
+
+fn apply_edit(engine: &rust_rule_engine::backward::backward_engine::BackwardEngine, e: &Edit) {
+    let kb = engine.knowledge_base();
+    match e {
+        Edit::Add(r) => {
+            let _ = kb.add_rule(r.clone());
+        }
+        Edit::Remove(n) => {
+            let _ = kb.remove_rule(n);
+        }
+        Edit::Enable(n, b) => {
+            let _ = kb.set_rule_enabled(n, *b);
+        }
+        Edit::Clear => kb.clear(),
+    }
+}
+
+/// the public mutators of `Facts` a caller can change one entry with (see MUTATOR SUFFIX in the header)
+const PUT_MUTATORS: [char; 9] = ['s', 'n', 'a', 'j', 'm', 't', 'c', 'w', 'y'];
+const DEL_MUTATORS: [char; 5] = ['s', 't', 'c', 'w', 'y'];
+
+fn sorted_entries(f: &Facts) -> Vec<(String, Value)> {
+    let mut v: Vec<(String, Value)> = f.get_all_facts().into_iter().collect();
+    v.sort_by(|a, b| a.0.cmp(&b.0));
+    v
+}
+
+/// `name := v` through the mutator `m`; false = unknown mutator
+fn put(facts: &mut Facts, name: &str, v: Value, m: char) -> bool {
+    match m {
+        's' => facts.set(name, v),
+        'n' => {
+            if name.contains('.') {
+                facts.set(name, v);
+            } else if facts.set_nested(name, v).is_err() {
+                return false;
+            }
+        }
+        'a' => {
+            let _ = facts.add_value(name, v);
+        }
+        'j' => {
+            // which values go through serde is decided by their shape alone (never by asking the code under test)
+            let r = match &v {
+                Value::Boolean(b) => facts.add(name, *b),
+                Value::Integer(i) => facts.add(name, *i),
+                Value::Number(x) if x.is_finite() => facts.add(name, *x),
+                Value::String(s) => facts.add(name, s.clone()),
+                Value::Null => facts.add(name, ()),
+                _ => facts.add_value(name, v.clone()),
+            };
+            if r.is_err() {
+                return false;
+            }
+        }
+        'm' => {
+            let other = Facts::new();
+            other.set(name, v);
+            facts.merge(&other);
+        }
+        't' => {
+            let mut snap = facts.snapshot();
+            snap.data.insert(name.to_string(), v);
+            facts.restore(snap);
+        }
+        'c' => {
+            let mut all = sorted_entries(facts);
+            all.retain(|(k, _)| k != name);
+            all.push((name.to_string(), v));
+            facts.clear();
+            for (k, x) in all {
+                let _ = facts.add_value(&k, x);
+            }
+        }
+        'w' => {
+            let mut ctx = facts.to_context();
+            ctx.insert(name.to_string(), v);
+            *facts = Facts::from_context(ctx);
+        }
+        'y' => {
+            let mut all = sorted_entries(facts);
+            all.retain(|(k, _)| k != name);
+            all.push((name.to_string(), v));
+            let g = Facts::new();
+            for (k, x) in all {
+                let _ = g.add_value(&k, x);
+            }
+            *facts = g;
+        }
+        _ => return false,
+    }
+    true
+}
+
+/// remove `name` through the mutator `m`; false = unknown mutator
+fn del(facts: &mut Facts, name: &str, m: char) -> bool {
+    match m {
+        's' => {
+            facts.remove(name);
+        }
+        't' => {
+            let mut snap = facts.snapshot();
+            snap.data.remove(name);
+            snap.fact_types.remove(name);
+            facts.restore(snap);
+        }
+        'c' => {
+            let mut all = sorted_entries(facts);
+            all.retain(|(k, _)| k != name);
+            facts.clear();
+            for (k, x) in all {
+                let _ = facts.add_value(&k, x);
+            }
+        }
+        'w' => {
+            let mut ctx = facts.to_context();
+            ctx.remove(name);
+            *facts = Facts::from_context(ctx);
+        }
+        'y' => {
+            let mut all = sorted_entries(facts);
+            all.retain(|(k, _)| k != name);
+            let g = Facts::new();
+            for (k, x) in all {
+                let _ = g.add_value(&k, x);
+            }
+            *facts = g;
+        }
+        _ => return false,
+    }
+    true
+}
+
+/// `<op>[@<m>]` -> (op, mutator)
+fn split_mutator(op: &str) -> Option<(&str, char)> {
+    match op.split_once('@') {
+        None => Some((op, 's')),
+        Some((o, m)) => {
+            let mut cs = m.chars();
+            let c = cs.next()?;
+            if cs.next().is_some() || !matches!(o.chars().next()?, 'S' | 'D' | 'X') {
+                return None;
+            }
+            Some((o, c))
+        }
+    }
+}
+
 fn exec(case: &str) -> String {
     let t: Vec<&str> = case.split_whitespace().collect();
     if t.len() != 4 {
@@ -321,6 +531,19 @@ fn exec(case: &str) -> String {
     let Some(mut base) = parse_case(&format!("{} {} F0.eq.t {}", cfg, init_rest, lower_rules(t[2]))) else { return "bad-case".into() };
     raise_rules(&mut base.rules);
     let mut engine = build_engine(&base, memo);
+    // knowledge-base edits: the rule token as written (for `+<i>=<j>`), the live rule list (shadow), the edits since the index was
+    // last built (`base.rules` = the rule list it was built from), the number of effective edits
+    let written: Vec<Rule> = base.rules.clone();
+    let mut live: Vec<Rule> = base.rules.clone();
+    let mut pending: Vec<Edit> = Vec::new();
+    let mut version = 0usize;
+    let fresh = |base: &c09::Case, pending: &[Edit]| {
+        let e = build_engine(base, memo);
+        for ed in pending {
+            apply_edit(&e, ed);
+        }
+        e
+    };
     let mut failed_aggregate = false;
     let mut reconfigured = false;
     let mut rete: Option<std::sync::Arc<std::sync::Mutex<rust_rule_engine::rete::propagation::IncrementalEngine>>> = None;
@@ -338,26 +561,40 @@ fn exec(case: &str) -> String {
         if op.is_empty() {
             return "bad-case".into();
         }
+        let Some((op, mu)) = split_mutator(op) else { return "bad-case".into() };
         let (kind, rest) = op.split_at(1);
         match kind {
             "S" if rest.ends_with("=z") => {
                 let Some((nulls, _)) = split_nulls(rest) else { return "bad-case".into() };
                 for k in nulls {
-                    facts.set(FIELDS[k], Value::Null);
+                    if !put(&mut facts, FIELDS[k], Value::Null, mu) {
+                        return "bad-case".into();
+                    }
                 }
             }
             "S" => {
                 let Some(c) = parse_case(&format!("{} {} F0.eq.t -", cfg, rest)) else { return "bad-case".into() };
                 for (k, v) in c.facts {
-                    facts.set(FIELDS[k], v);
+                    if !put(&mut facts, FIELDS[k], v, mu) {
+                        return "bad-case".into();
+                    }
                 }
             }
             "D" => {
                 let Some(i) = rest.strip_prefix('F').and_then(|x| x.parse::<usize>().ok()) else { return "bad-case".into() };
-                if i >= FIELDS.len() {
+                if i >= FIELDS.len() || !del(&mut facts, FIELDS[i], mu) {
                     return "bad-case".into();
                 }
-                facts.remove(FIELDS[i]);
+            }
+            "W" if rest.is_empty() => {
+                facts = Facts::from_context(facts.to_context());
+            }
+            "W" if rest == "y" => {
+                let g = Facts::new();
+                for (k, x) in sorted_entries(&facts) {
+                    let _ = g.add_value(&k, x);
+                }
+                facts = g;
             }
             "P" => {
                 let Some((pre, nv)) = rest.split_once('*') else { return "bad-case".into() };
@@ -373,10 +610,9 @@ fn exec(case: &str) -> String {
             "X" => {
                 let Some((name, v)) = rest.split_once('=') else { return "bad-case".into() };
                 let Some(v) = parse_xval(v) else { return "bad-case".into() };
-                if !extra_name_ok(name) {
+                if !extra_name_ok(name) || !put(&mut facts, name, v, mu) {
                     return "bad-case".into();
                 }
-                facts.set(name, v);
             }
             "K" => {
                 if rest.is_empty() {
@@ -397,6 +633,41 @@ fn exec(case: &str) -> String {
                     enable_memoization: memo,
                     max_solutions: base.max_solutions,
                 });
+                reconfigured = true;
+            }
+            "+" | "-" | "e" | "d" | "z" => {
+                let num = |x: &str| x.parse::<usize>().ok().filter(|i| *i < 64);
+                let ed = match kind {
+                    "+" => {
+                        let Some((i, j)) = rest.split_once('=') else { return "bad-case".into() };
+                        let (Some(i), Some(j)) = (num(i), num(j)) else { return "bad-case".into() };
+                        let Some(r) = written.get(j) else { return "bad-case".into() };
+                        let mut r = r.clone();
+                        r.name = format!("R{}", i);
+                        r.enabled = true;
+                        Edit::Add(r)
+                    }
+                    "z" if rest.is_empty() => Edit::Clear,
+                    "z" => return "bad-case".into(),
+                    _ => {
+                        let Some(i) = num(rest) else { return "bad-case".into() };
+                        match kind {
+                            "-" => Edit::Remove(format!("R{}", i)),
+                            "e" => Edit::Enable(format!("R{}", i), true),
+                            _ => Edit::Enable(format!("R{}", i), false),
+                        }
+                    }
+                };
+                apply_edit(&engine, &ed);
+                if shadow_edit(&mut live, &ed) {
+                    version += 1;
+                }
+                pending.push(ed);
+            }
+            "x" if rest.is_empty() => {
+                engine.rebuild_index();
+                base.rules = live.clone();
+                pending.clear();
                 reconfigured = true;
             }
             "R" if rest.is_empty() => {
@@ -422,7 +693,7 @@ fn exec(case: &str) -> String {
                 let Some(q) = rest.parse::<usize>().ok().and_then(|k| MALFORMED.get(k)) else { return "bad-case".into() };
                 let cf = canon(&facts);
                 let before = facts_text(&facts, &cf);
-                let mut fresh_engine = build_engine(&base, memo);
+                let mut fresh_engine = fresh(&base, &pending);
                 let mut copy = deep_copy(&facts);
                 let fr = match fresh_engine.query_aggregate(q, &mut copy) {
                     Ok(v) => show_value(&v),
@@ -442,8 +713,8 @@ fn exec(case: &str) -> String {
                 let Some(atom_query) = query_text(cfg, rest) else { return "bad-case".into() };
                 let query = if kind == "N" { format!("NOT {}", atom_query) } else { atom_query };
                 let cf = canon(&facts);
-                let before = facts_text(&facts, &cf);
-                let mut fresh_engine = build_engine(&base, memo);
+                let before = if version == 0 { facts_text(&facts, &cf) } else { format!("v{}|{}", version, facts_text(&facts, &cf)) };
+                let mut fresh_engine = fresh(&base, &pending);
                 let mut copy = deep_copy(&facts);
                 let (text, ms);
                 let (ans, fresh, hit) = if kind != "A" {
@@ -502,6 +773,12 @@ fn exec(case: &str) -> String {
                 }
                 if asked.iter().any(|a| a.query == query && a.ms == ms && a.facts != cf && without_nulls(&a.facts) == without_nulls(&cf)) {
                     flags.push('z');
+                }
+                if version > 0 {
+                    flags.push('V');
+                    if !pending.is_empty() {
+                        flags.push('s');
+                    }
                 }
                 if rete.is_some() && kind != "A" {
                     flags.push('R');
@@ -1173,6 +1450,143 @@ fn gen_rete(rng: &mut Rng) -> String {
     format!("{} {} {} {}", cfg, init, rules.join(";"), ops.join(","))
 }
 
+/// knowledge-base edit family: the rule set of the LIVE engine changes between askings of one goal (add_rule / remove_rule /
+/// set_rule_enabled / clear through engine.knowledge_base(), with and without rebuild_index afterwards); the rules token holds a
+/// reserve of disabled (`*`) rules for `e<i>` and bodies for `+<i>=<j>`. Shapes: (0) not provable -> the concluding rule is added /
+/// enabled -> asked again on the same facts; (1) provable -> the rule is removed / disabled / everything cleared -> asked again;
+/// (2) a rule replaced under another name (same rule count, stale index); (3) random edits, queries, fact changes, set_config.
+fn gen_kb_edit(rng: &mut Rng) -> String {
+    let premise = *rng.pick(&["F6.eq.n1", "F6.eq.n1", "F7.gt.n3", "F1.eq.sab"]);
+    let fact = match premise {
+        "F6.eq.n1" => "F6=n1",
+        "F7.gt.n3" => "F7=n5",
+        _ => "F1=sab",
+    };
+    let chain = rng.chance(1, 3);
+    // rule 0 concludes the goal F5 (directly, or from F0 which rule 1 derives); further rules: a rival value, a bystander
+    let mut rules: Vec<String> = Vec::new();
+    if chain {
+        rules.push("F0.eq.t~F5:=t".to_string());
+        rules.push(format!("{}~F0:=t", premise));
+    } else {
+        rules.push(format!("{}~F5:=t", premise));
+    }
+    if rng.chance(1, 3) {
+        rules.push(format!("{}~F5:={}", premise, *rng.pick(&["f", "n1"])));
+    }
+    if rng.chance(1, 3) {
+        rules.push(format!("F{}.eq.t~F4:=t", rng.below(4)));
+    }
+    let nr = rules.len() as u64;
+    let goal = *rng.pick(&["F5.eq.t", "F5.eq.t", "F5.eq.t", "F5.ne.t", "F5.eq.f"]);
+    let ask = |rng: &mut Rng, ops: &mut Vec<String>| {
+        let k = match rng.below(12) {
+            0 => "A",
+            1 | 2 => "N",
+            _ => "Q",
+        };
+        ops.push(format!("{}{}", k, goal));
+        // a proof commits what it derived: take it out again so that only the rule set differs
+        if rng.chance(5, 6) {
+            ops.push("DF5".to_string());
+            ops.push("DF0".to_string());
+        }
+    };
+    let rebuild = |rng: &mut Rng, ops: &mut Vec<String>| {
+        if rng.chance(1, 2) {
+            ops.push("x".to_string());
+        }
+    };
+    let mut ops: Vec<String> = Vec::new();
+    let shape = rng.below(4);
+    match shape {
+        0 => {
+            // the concluding rule is missing at first: disabled in the token, or removed before the first asking
+            let how = rng.below(3);
+            if how == 0 {
+                rules[0] = format!("*{}", rules[0]);
+            } else {
+                ops.push("-0".to_string());
+                rebuild(rng, &mut ops);
+            }
+            ask(rng, &mut ops);
+            if rng.chance(1, 3) {
+                ask(rng, &mut ops); // a genuine hit before the edit
+            }
+            ops.push(match how {
+                0 => "e0".to_string(),
+                1 => "+0=0".to_string(),
+                _ => format!("+{}=0", nr + rng.below(2)),
+            });
+            rebuild(rng, &mut ops);
+            ask(rng, &mut ops);
+            if rng.chance(1, 2) {
+                ops.push(if how == 0 { "d0".to_string() } else { format!("-{}", if how == 1 { 0 } else { nr }) });
+                rebuild(rng, &mut ops);
+                ask(rng, &mut ops);
+            }
+        }
+        1 => {
+            ask(rng, &mut ops);
+            ops.push(match rng.below(4) {
+                0 => "-0".to_string(),
+                1 => "d0".to_string(),
+                2 => "z".to_string(),
+                _ => format!("-{}", if chain { 1 } else { 0 }),
+            });
+            rebuild(rng, &mut ops);
+            ask(rng, &mut ops);
+            if rng.chance(1, 2) {
+                // … and back (whichever of the three matches the edit above takes effect; the others are rejected / no-ops)
+                ops.push(rng.pick(&["e0", "+0=0", "+7=0"]).to_string());
+                rebuild(rng, &mut ops);
+                ask(rng, &mut ops);
+            }
+        }
+        2 => {
+            // replaced under another name: same number of rules, the index still names the old rule
+            ask(rng, &mut ops);
+            ops.push("-0".to_string());
+            if rng.chance(1, 3) {
+                ask(rng, &mut ops);
+            }
+            ops.push(format!("+{}=0", nr + 1));
+            rebuild(rng, &mut ops);
+            ask(rng, &mut ops);
+            if rng.chance(1, 2) {
+                ops.push("x".to_string());
+                ask(rng, &mut ops);
+            }
+        }
+        _ => {
+            for r in rules.iter_mut() {
+                if rng.chance(1, 3) {
+                    *r = format!("*{}", r);
+                }
+            }
+            ask(rng, &mut ops);
+            for _ in 0..rng.range(3, 7) {
+                match rng.below(12) {
+                    0 | 1 => ops.push(format!("+{}={}", rng.below(nr + 2), rng.below(nr))),
+                    2 | 3 => ops.push(format!("-{}", rng.below(nr + 1))),
+                    4 => ops.push(format!("e{}", rng.below(nr + 1))),
+                    5 => ops.push(format!("d{}", rng.below(nr + 1))),
+                    6 if rng.chance(1, 3) => ops.push("z".to_string()),
+                    6 | 7 => ops.push("x".to_string()),
+                    8 => ops.push(if rng.chance(1, 2) { format!("S{}", fact) } else { format!("D{}", &fact[..2]) }),
+                    9 if rng.chance(1, 2) => ops.push(format!("K{}{}", *rng.pick(&["D", "B", "I"]), rng.range(1, 4))),
+                    _ => ask(rng, &mut ops),
+                }
+            }
+            ask(rng, &mut ops);
+        }
+    }
+    let strat = ["D", "D", "D", "B", "I"][rng.below(5) as usize];
+    let cfg = format!("{}{}s{}m{}", strat, rng.range(2, 4), if rng.chance(3, 4) { 1 } else { 3 }, if rng.chance(9, 10) { 1 } else { 0 });
+    let init = if rng.chance(5, 6) { fact.to_string() } else { "-".to_string() };
+    format!("{} {} {} {}", cfg, init, rules.join(";"), ops.join(","))
+}
+
 fn gen(rng: &mut Rng, n: usize, _tier: &str) -> Vec<String> {
     let mut out = Vec::new();
     for _ in 0..n {
@@ -1249,7 +1663,34 @@ fn gen(rng: &mut Rng, n: usize, _tier: &str) -> Vec<String> {
     for _ in 0..n / 10 {
         out.push(gen_rete(rng));
     }
-    out
+    // the rule set of the live engine edited between askings, with and without rebuild_index
+    for _ in 0..n / 8 {
+        out.push(gen_kb_edit(rng));
+    }
+    out.into_iter().map(|c| vary_mutators(rng, &c)).collect()
+}
+
+/// the route of every caller-side change: half of the `S` / `D` / `X` ops keep `Facts::set` / `remove`, the others draw one of
+/// the other public mutators (`@<m>`); now and then the next query gets a NEW Facts object with equal contents (`W`, `Wy`).
+/// The contents after every op — all that the models and the flags read — are unchanged by this pass.
+fn vary_mutators(rng: &mut Rng, case: &str) -> String {
+    let t: Vec<&str> = case.split_whitespace().collect();
+    if t.len() != 4 {
+        return case.to_string();
+    }
+    let mut ops = Vec::new();
+    for op in t[3].split(',') {
+        match op.chars().next() {
+            Some('S') | Some('X') if rng.chance(1, 2) => ops.push(format!("{}@{}", op, *rng.pick(&PUT_MUTATORS[1..]))),
+            Some('D') if rng.chance(1, 2) => ops.push(format!("{}@{}", op, *rng.pick(&DEL_MUTATORS[1..]))),
+            Some('Q') | Some('N') | Some('A') if rng.chance(1, 12) => {
+                ops.push(if rng.chance(1, 2) { "W" } else { "Wy" }.to_string());
+                ops.push(op.to_string());
+            }
+            _ => ops.push(op.to_string()),
+        }
+    }
+    format!("{} {} {} {}", t[0], t[1], t[2], ops.join(","))
 }
 
 /// smaller variants of one bulk-load / long-value op
@@ -1306,6 +1747,13 @@ fn shrink(case: &str) -> Vec<String> {
             if !v.is_empty() {
                 out.push(format!("{} {} {} {}", t[0], v.join(","), t[2], t[3]));
             }
+        }
+    }
+    for (i, op) in ops.iter().enumerate() {
+        if let Some((o, _)) = op.split_once('@') {
+            let mut v = ops.clone();
+            v[i] = o.to_string();
+            out.push(format!("{} {} {} {}", t[0], t[1], t[2], v.join(",")));
         }
     }
     for (i, op) in ops.iter().enumerate() {
